@@ -237,6 +237,13 @@ Proof.
       split; [reflexivity|]. split; [now apply (Hf _ _ _ E)|reflexivity].
 Qed.
 
+(* one JSON-RPC call per request, none for a request the parser rejects: the reply depends on the server only
+   through the result of the single call (method, params) the parser produced *)
+Lemma getter_call_locality p perr o srv1 srv2 :
+  (match p with PRErr => True | PROk m ps => srv1 m ps = srv2 m ps end) ->
+  getter_reply p perr o srv1 = getter_reply p perr o srv2.
+Proof. destruct p as [|m ps]; [reflexivity|]. intros H. unfold getter_reply. now rewrite H. Qed.
+
 (* ------------------------------------------------------------------------- *)
 (* non-vacuity *)
 
